@@ -436,3 +436,42 @@ class Installed:
         self._saved = []
         _Ctx.fs, _Ctx.clock, _Ctx.deliver = self._prev_ctx
         return False
+
+
+class LoadOnly:
+    """Light-weight variant of :class:`Installed` for reading one image through the real loader:
+    only the three file seams of tenpy.tools.hdf5_io are rebound."""
+
+    def __init__(self, fs):
+        self.fs = fs
+
+    def __enter__(self):
+        import tenpy.tools.hdf5_io as h5mod
+        self._mod = h5mod
+        d = h5mod.__dict__
+        self._saved = (d.get('open', _MISSING), d.get('gzip'), d.get('h5py'), _Ctx.fs, _Ctx.clock, _Ctx.deliver)
+        h5mod.open = sim_open
+        h5mod.gzip = _GZIP
+        h5mod.h5py = _H5PY
+        _Ctx.fs, _Ctx.clock, _Ctx.deliver = self.fs, None, None
+        return self
+
+    def __exit__(self, *exc):
+        h5mod = self._mod
+        o, g, h, fs, clock, deliver = self._saved
+        if o is _MISSING:
+            try:
+                del h5mod.open
+            except AttributeError:
+                pass
+        else:
+            h5mod.open = o
+        h5mod.gzip = g
+        h5mod.h5py = h
+        _Ctx.fs, _Ctx.clock, _Ctx.deliver = fs, clock, deliver
+        return False
+
+
+_MISSING = object()
+_GZIP = _GzipProxy()
+_H5PY = _H5pyProxy()
